@@ -608,7 +608,22 @@ func (g *Gen) motif() []*Op {
 		}
 		ops = append(ops, &Op{Kind: GetTag, Repo: repo, Tag: tag, StopAfter: -1, ContentFault: -1})
 	}
-	switch g.C.Int("motif.kind", 5) {
+	switch g.C.Int("motif.kind", 6) {
+	case 5:
+		// an index whose descriptor of a member mislabels the member's media type; the
+		// member is then pushed again, untagged, under yet another type: whatever the
+		// registry believes about types, what the tag reaches must stay
+		c1 := add(g.mBlob(repo))
+		m1op, m1 := g.mImage(repo, "", c1, nil, nil)
+		add(m1op, m1)
+		mislabelled := m1
+		mislabelled.MediaType = opaqueTypes[g.C.Int("motif.mislabel", len(opaqueTypes))]
+		idx := add(g.mIndex(repo, tag, []jsonDesc{mislabelled}, nil))
+		again := *m1op
+		again.MediaType = opaqueTypes[g.C.Int("motif.again", len(opaqueTypes))]
+		ops = append(ops, &again)
+		probes(c1, m1, idx)
+		return ops
 	case 4:
 		// a tagged manifest pushed again, untagged, under another media type; then
 		// everything that reports its descriptor (small and beyond the size up to
